@@ -73,7 +73,14 @@ void h_C10_pull(void)
 	/* buffer content and stash content are arbitrary */
 	for (size_t i = 0; i < BUFZ; i++) {
 		if (i < bsz) {
+#if defined ALPHA3
+			/* the bytes the line chopper distinguishes: line feed, blank (fold), anything else */
+			uint8_t k = nondet_uint8_t();
+			ASSUME(k < 3U);
+			buf[i] = k == 0U ? '\n' : k == 1U ? ' ' : 'A';
+#else
 			buf[i] = nondet_char();
+#endif
 		}
 	}
 	p->six = six;
